@@ -6,6 +6,7 @@ import NutsModel.C18.LocalStore
 import NutsModel.C18.DidKey
 import NutsModel.C18.X509
 import NutsModel.C18.DidJwk
+import NutsModel.C18.Chain
 open Lean Nuts.Drv Nuts.C18 Nuts
 
 namespace Nuts.Drv.C18
@@ -125,6 +126,23 @@ def hcSteps : RCache → List Json → List String → List String
       | (c', .netErr) => hcSteps c' js (s!"rt:err {showCache c'}" :: acc)
     | k => (("bad-step:" ++ k) :: acc).reverse
 
+/-- a scripted member resolver's answer (deepening round 3, ops `chain` / `router`) -/
+def rOutOf (idx : Nat) (o : String) : ROut :=
+  if o == "ok" then .ok idx else if o == "nf" || o == "nfw" then .notFound
+  else if o == "deactw" then .fail "deact" else if o == "deact" || o == "noctl" || o == "unsup" then .fail o else .fail "err"
+
+def showROut : ROut → String
+  | .ok i => s!"ok:{i}"
+  | .notFound => "nf"
+  | .fail e => "fail:" ++ e
+
+/-- `deactivatedError.Is`: both sentinel errors of the type match `ErrDeactivated` -/
+def isDeactClass : ROut → Bool
+  | .fail e => e == "deact" || e == "noctl"
+  | _ => false
+
+def enum {α} (l : List α) : List (Nat × α) := (List.range l.length).zip l
+
 structure St where
   methods : List Bytes := []
   strict : Bool := false
@@ -216,6 +234,15 @@ def step (st : St) (j : Json) : St × List String :=
                             isEC := jBool lj "ec", onCurve := jBool lj "oncurve", vmErr := jBool lj "vmerr" }
       let decs := match b64Decode d.id with | .ok b => hx b | .err _ => "err" | .panic p => "panic:" ++ p
       s!"jwk {(resolveJwkClass (jwkOrderOf Nuts.Facts.C18.jwkRefusals) d.method d.id (fun _ => lib)).str} dec={decs}"
+    | "chain" =>
+      let outs := (enum (jStrs j "outs")).map fun (i, o) => rOutOf i o
+      let (o, n) := chainResolve outs
+      s!"chain {showROut o} asked={n} isdeact={isDeactClass o}"
+    | "router" =>
+      let regs := (enum (jArr j "regs")).map fun (i, g) => (unhx (jStr g "m"), (i, rOutOf i (jStr g "out")))
+      match routerLookup regs (unhx (jStr j "m")) with
+      | none => "router unsupported"
+      | some (i, o) => s!"router {if o == .notFound then (if (jStr ((jArr j "regs").toArray[i]!) "out") == "nfw" then "nf-wrapped" else "nf") else showROut o} asked=[{i}]"
     | "hc" => "hc " ++ String.intercalate ";" (hcSteps (RCache.new (jInt j "max")) (jArr j "steps") [])
     | o => "bad-op:" ++ o
   (st, [line])
